@@ -282,7 +282,8 @@ def propagation(case, ctx):
     ops += [("a+a", 'drop', lambda a: a + a, None), ("a*2", 'drop', lambda a: a * 2, None), ("2-a", 'drop', lambda a: 2 - a, None),
             ("-a", 'drop', lambda a: -a, None), ("a+b", 'drop', lambda a: a + fresh().take(some, axis=d), None),
             ("a==a", 'drop', lambda a: a == a, None), ("a<2", 'drop', lambda a: a < 2, None), ("a>=a", 'drop', lambda a: a >= a, None),
-            ("a!=1", 'drop', lambda a: a != 1, None),
+            ("a!=1", 'drop', lambda a: a != 1, None), ("(a>1)&(a<9)", 'drop', lambda a: (a > 1) & (a < 9), None), ("(a>1)|(a<0)", 'drop', lambda a: (a > 1) | (a < 0), None),
+            ("+a", 'drop', lambda a: +a, None), ("~(a>1)", 'drop', lambda a: ~(a > 1), None),
             ("stack", 'drop', lambda a: da.stack([a, a], axis='snew', keys=['p', 'q']), None),
             ("stack-dict", 'drop', lambda a: da.stack({'p': a, 'q': a}, axis='snew'), None),
             ("concatenate", 'drop', lambda a: da.concatenate([a, a], axis=d), None),
